@@ -45,3 +45,15 @@ Definition chk_follower (c : (bool * bool * bool) * list fhout * bool) : bool :=
   let '((p, r, g), outs, still) := c in
   let '(mo, ms) := fh_round true p r g in
   list_eqb fhout_eqb mo outs && Bool.eqb ms still.
+
+(* --- kubernetesStatefulSet membership: (host name, configured group size) and what the real NewVBucketDiscovery made of
+   it: Some (member number, group size), None = the start-up terminated --- *)
+From Verif Require Import Base.Bytes Model.StatefulSet.
+
+Definition chk_sts (c : bytes * Z * option (Z * Z)) : bool :=
+  let '(h, total, obs) := c in
+  match sts_member h total, obs with
+  | Some (m, t), Some (m', t') => Z.eqb m m' && Z.eqb t t'
+  | None, None => true
+  | _, _ => false
+  end.
